@@ -249,8 +249,8 @@ INSTANCES = [
     ("cond", "(cond (%N1 %N2 (%T1)) (%N3 (%T2)) (else %N4 (%T3)))"),
     ("cond without else", "(cond (%N1 (%T1)) (%N2 %N3 (%T2)))"),
     ("cond =>", "(cond (%N1 => %N2) (else (%T1)))"),
-    ("case", "(case %N1 ((a b) %N2 (%T1)) ((c) (%T2)) (else %N3 (%T3)))"),
-    ("case without else", "(case %N1 ((a) (%T1)) ((b) %N2 (%T2)))"),
+    ("case", "(case k ((a b) %N2 (%T1)) ((c) (%T2)) (else %N3 (%T3)))"),
+    ("case without else", "(case k ((a) (%T1)) ((b) %N2 (%T2)))"),
     ("case on a compound key", "(case (%N1 x) ((a) (%T1)) (else (%T2)))"),
     ("nested: cond in let in when", "(when %N1 (let ((x %N2)) (cond (%N3 (%T1)) (else (or %N4 (%T2))))))"),
 ]
